@@ -57,6 +57,7 @@ type Contract struct {
 	Asserts    []*Clause       // assert call=NAME#N label: expr  (checked right before the N-th call of NAME in source order)
 	CallKeeps  map[string][]*Expr // callkeeps NAME e1 ; e2: memory regions an unmodelled callee NAME leaves unchanged (assumption)
 	CallKeepSrc map[string][]string
+	Ignore      map[string]bool     // ignore CALLEE.label: that postcondition of the callee's contract is not assumed at this function's call sites
 	CallEnsures map[string][]*Clause // callensures NAME [label:] expr: assumed about the results (result0..) and arguments (arg0..) of an unmodelled callee
 	Notes      []string
 	Replay     string // "auto" | "none" | template name
@@ -488,6 +489,15 @@ func ParseContractFile(path, pkg string) (*ContractFile, error) {
 			case "hide":
 				for _, w := range strings.Fields(rest) {
 					cur.Hide[w] = true
+				}
+			case "ignore":
+				// ignore CALLEE.label ...: do not assume those postconditions of callee
+				// contracts here (the function is verified without them)
+				if cur.Ignore == nil {
+					cur.Ignore = map[string]bool{}
+				}
+				for _, w := range strings.Fields(rest) {
+					cur.Ignore[w] = true
 				}
 			case "opaque":
 				for _, w := range strings.Fields(rest) {
